@@ -488,6 +488,15 @@ class Engine:
             if tk in ('float', 'double'):
                 if isinstance(v, (Fraction,)) or (z3.is_expr(v) and v.sort().kind() == z3.Z3_REAL_SORT): return v
                 if isinstance(v, int) and v == 0: return Fraction(0)
+                if isinstance(v, IntV) and v.lazy is not None:
+                    # bits read from a symbolic buffer as an integer (struct copy), now used as a float:
+                    # the buffer content at that offset *as a real number*
+                    obj, off, sz = v.lazy
+                    key = (obj, sz, 'real')
+                    f = s.ufs.get(key)
+                    if f is None:
+                        f = z3.Function(f'mem!{obj[1]}!{sz}r', z3.IntSort(), z3.RealSort()); s.ufs[key] = f
+                    return f(off)
                 raise Inconclusive('REAL mode: integer bits reinterpreted as floating point')
             if isinstance(v, Fraction) or (z3.is_expr(v) and not isinstance(v, IntV)):
                 if isinstance(v, Fraction) and v == 0: return 0
@@ -523,6 +532,8 @@ class Engine:
                 u = s.A.U(st, v) if isinstance(v, IntV) else v
                 sh = 8 * (off - o)
                 r = s.A.mk((u / (1 << sh)) % (1 << (8 * sz)) if not isinstance(u, int) else (u >> sh) & MASK(8 * sz), 8 * sz, True)
+                if isinstance(v, IntV) and v.lazy is not None and isinstance(r, IntV):
+                    r.lazy = (v.lazy[0], v.lazy[1] + (off - o), sz)     # a piece of an untyped symbolic-buffer read
                 return s.conv_loaded(st, r, tk, bits)
             # cells must tile the region exactly -> bundle
             pos = off; parts = []
@@ -715,6 +726,7 @@ class Engine:
             v = f(A.off_term(p.off))
             return s.conv_loaded(st, v, tk, bits)
         if tk in ('float', 'double'):
+            key = (p.obj, sz, 'real')
             f = s.ufs.get(key)
             if f is None:
                 f = z3.Function(f'mem!{p.obj[1]}!{sz}r', z3.IntSort(), z3.RealSort()); s.ufs[key] = f
@@ -724,7 +736,9 @@ class Engine:
             f = z3.Function(f'mem!{p.obj[1]}!{sz}', z3.IntSort(), z3.IntSort()); s.ufs[key] = f
         t = f(A.off_term(p.off))
         st.pc.append(z3.And(t >= 0, t < (1 << (8 * sz))))
-        return IntV(t, 8 * sz, True)
+        r = IntV(t, 8 * sz, True)
+        r.lazy = (p.obj, A.off_term(p.off), sz)
+        return r
 
     # byte-range operations -----------------------------------------------------
     def copy_range(s, st, dst, src, n, what, stack=None):
@@ -740,9 +754,12 @@ class Engine:
         if so is None or do is None:
             # symbolic address: word-wise through the symbolic-offset load/store path
             chunk = 8 if n % 8 == 0 else 4 if n % 4 == 0 else 1
-            ity = Ty('int', 8 * chunk)
             if s.A.real:
-                raise Inconclusive(f'{what} with a symbolic address in INT/REAL mode')
+                # INT/REAL mode: only word-wise copies out of a symbolic-size buffer (values stay untyped until used)
+                if do is None or chunk == 1 or isinstance(sob.size, int):
+                    raise Inconclusive(f'{what} with a symbolic address in INT/REAL mode')
+                chunk = 4 if n % 4 == 0 else chunk
+            ity = Ty('int', 8 * chunk)
             vals = [s.load(st, s.padd(st, src, i), ity, stack) for i in range(0, n, chunk)]
             for k, i in enumerate(range(0, n, chunk)):
                 s.store(st, s.padd(st, dst, i), ity, vals[k], stack)
